@@ -16,6 +16,20 @@ import (
 	"github.com/TheCacophonyProject/window"
 )
 
+// flakyStopRecorder accepts everything but reports an error from every second StopRecording.
+type flakyStopRecorder struct {
+	recorder.NoWriteRecorder
+	stops int
+}
+
+func (r *flakyStopRecorder) StopRecording() error {
+	r.stops++
+	if r.stops%2 == 1 {
+		return errScriptedBad
+	}
+	return nil
+}
+
 type motionFlag struct{ hit bool }
 
 func (m *motionFlag) MotionDetected()   { m.hit = true }
@@ -42,7 +56,9 @@ func newDetDriver(cfg detConfig, viaProcessor bool) *detDriver {
 	}
 	d.flag = &motionFlag{}
 	rc := &recorder.RecorderConfig{MinSecs: 1, MaxSecs: 2, PreviewSecs: 1, Window: window.Window{NoWindow: true}}
-	d.mp = NewMotionProcessor(nil, &mc, rc, &config.Location{}, d.flag, new(recorder.NoWriteRecorder), cfg.cam(), nil, new(recorder.NoWriteRecorder))
+	// the storage behind the processor may fail to close a recording (at its end, at a bad
+	// frame, at a camera reset); detection must not care
+	d.mp = NewMotionProcessor(nil, &mc, rc, &config.Location{}, d.flag, &flakyStopRecorder{}, cfg.cam(), nil, new(recorder.NoWriteRecorder))
 	return d
 }
 
